@@ -14,6 +14,7 @@ Nothing else is ever mapped to "refuted".
 from __future__ import annotations
 
 import hashlib
+import os
 import time
 import z3
 
@@ -153,7 +154,7 @@ class Engine:
         self.forced_template = {}
         self.forced_choices = {}
         self.steps = 0
-        self.max_steps = 400_000
+        self.max_steps = int(os.environ.get("PYVC_MAX_STEPS", "400000"))
         # budget in CPU seconds of this harness process (not wall clock: verdicts must not flip when all cores are busy);
         # exceeding it is 'undecided', never a violation
         self.t_start = time.process_time()
